@@ -6,6 +6,10 @@
 // lookup (Put under one key, Get under the other) in SuObject and SuRecord containers.
 // The trace is validated by spec/trace/TraceValues.tla; this program decides nothing.
 //
+// Lazily materialised representations (a record backed by its database row, a sequence over
+// an iterator, containers holding them) are also taken, as brand new copies, through sequences
+// of read-only steps (LzNew / Lz events, see episodes()).
+//
 // usage: values <trace.ndjson> [-row <id>]    (-row: expand one row into Pair events)
 package main
 
@@ -30,6 +34,16 @@ type inst struct {
 	av  *aval.V
 	v   Value
 	key string // optional known-finding class of the abstract value
+	// lazily materialised representations (a record still backed by its database row, a
+	// sequence over an iterator) and containers holding one: mk builds a brand new
+	// concrete value (nothing read or unpacked yet) and names the lazy leaves inside it
+	mk func() (Value, []leaf)
+}
+
+// leaf is a lazily materialised value nested in (or identical to) a fresh instance
+type leaf struct {
+	v  Value
+	av *aval.V
 }
 
 var insts []*inst
@@ -216,9 +230,26 @@ func objReps(rnd *rand.Rand, list []*inst, named []member, alt func(*inst) *inst
 			out = append(out, in)
 		}
 	}
-	build := func(c Container, reverse bool, pick func(*inst) *inst) {
+	putm := func(rep string, mk func() (Value, []leaf)) {
+		v, _ := mk()
+		if in := add(av, rep, v); in != nil {
+			in.mk = mk
+			out = append(out, in)
+		}
+	}
+	// every container gets brand new copies of its lazy members, so that no two instances
+	// share materialisation state
+	fresh := func(in *inst, leaves *[]leaf) Value {
+		if in.mk == nil {
+			return in.v
+		}
+		v, lv := in.mk()
+		*leaves = append(*leaves, lv...)
+		return v
+	}
+	buildL := func(c Container, reverse bool, pick func(*inst) *inst) (leaves []leaf) {
 		for _, e := range list {
-			c.Add(pick(e).v)
+			c.Add(fresh(pick(e), &leaves))
 		}
 		ms := append([]member{}, named...)
 		if reverse {
@@ -227,13 +258,26 @@ func objReps(rnd *rand.Rand, list []*inst, named []member, alt func(*inst) *inst
 			}
 		}
 		for _, m := range ms {
-			c.Put(nil, pick(m.k).v, pick(m.v).v)
+			c.Put(nil, fresh(pick(m.k), &leaves), fresh(pick(m.v), &leaves))
 		}
+		return leaves
 	}
+	build := func(c Container, reverse bool, pick func(*inst) *inst) { buildL(c, reverse, pick) }
 	same := func(in *inst) *inst { return in }
-	o1 := &SuObject{}
-	build(o1, false, same)
-	put("SuObject", o1)
+	hasLazy := false
+	for _, e := range list {
+		hasLazy = hasLazy || e.mk != nil
+	}
+	for _, m := range named {
+		hasLazy = hasLazy || m.k.mk != nil || m.v.mk != nil
+	}
+	mkOb := func() *SuObject { o := &SuObject{}; build(o, false, same); return o }
+	o1 := mkOb()
+	if hasLazy {
+		putm("SuObject", func() (Value, []leaf) { o := &SuObject{}; return o, buildL(o, false, same) })
+	} else {
+		put("SuObject", o1)
+	}
 	if len(named) > 1 {
 		o2 := &SuObject{}
 		build(o2, true, same)
@@ -246,25 +290,31 @@ func objReps(rnd *rand.Rand, list []*inst, named []member, alt func(*inst) *inst
 	// list built out of order (members migrate from named to list) and a deleted extra
 	if len(list) > 1 {
 		o4 := &SuObject{}
+		var lv []leaf
 		for i := len(list) - 1; i >= 0; i-- {
-			o4.Set(IntVal(i), list[i].v)
+			o4.Set(IntVal(i), fresh(list[i], &lv))
 		}
 		for _, m := range named {
-			o4.Set(m.k.v, m.v.v)
+			o4.Set(fresh(m.k, &lv), fresh(m.v, &lv))
 		}
 		o4.Set(SuStr("__extra"), True)
 		o4.Delete(nil, SuStr("__extra"))
 		put("SuObject.migrated", o4)
 	}
-	r1 := NewSuRecord()
-	build(r1, false, same)
-	put("SuRecord", r1)
+	if hasLazy {
+		putm("SuRecord", func() (Value, []leaf) { r := NewSuRecord(); return r, buildL(r, false, same) })
+	} else {
+		r1 := NewSuRecord()
+		build(r1, false, same)
+		put("SuRecord", r1)
+	}
 	o5 := &SuObject{}
 	build(o5, true, alt)
 	put("SuRecordFromObject", SuRecordFromObject(o5))
-	put("Unpack(SuObject)", try(func() Value { return Unpack(PackValue(o1)) }))
-	put("Unpack(SuRecord)", try(func() Value { return Unpack(PackValue(r1)) }))
-	put("Copy", o1.Copy())
+	// (packing reads the members: pack separately built values, not the instances above)
+	put("Unpack(SuObject)", try(func() Value { return Unpack(PackValue(mkOb())) }))
+	put("Unpack(SuRecord)", try(func() Value { r := NewSuRecord(); build(r, false, same); return Unpack(PackValue(r)) }))
+	put("Copy", mkOb().Copy())
 	o6 := &SuObject{}
 	build(o6, false, same)
 	o6.SetReadOnly()
@@ -274,12 +324,115 @@ func objReps(rnd *rand.Rand, list []*inst, named []member, alt func(*inst) *inst
 	o7.SetConcurrent()
 	put("SuObject.concurrent", o7)
 	if len(named) == 0 {
-		o8 := &SuObject{}
-		build(o8, false, same)
-		put("SuSequence", NewSuSequence(o8.Iter()))
+		// lazy: the members are pulled from the iterator on first use
+		putm("SuSequence", func() (Value, []leaf) {
+			o8 := &SuObject{}
+			lv := buildL(o8, false, same)
+			seq := NewSuSequence(o8.Iter())
+			return seq, append(lv, leaf{seq, av})
+		})
+	}
+	// a record as a query delivers it: backed by a database row, nothing unpacked yet
+	// (core.SuRecordFromRow); fields = the named members
+	if cols, ok := rowFields(list, named); ok && packExact(named) {
+		for _, variant := range []string{"", ".rev", ".join", ".part"} {
+			variant := variant
+			if (variant == ".rev" || variant == ".join") && len(cols) < 2 {
+				continue
+			}
+			if try(func() Value { v, _ := rowRecord(cols, named, variant, av, fresh); return v }) == nil {
+				continue // a member value that cannot be stored
+			}
+			putm("SuRecordFromRow"+variant, func() (Value, []leaf) { return rowRecord(cols, named, variant, av, fresh) })
+		}
 	}
 	_ = rnd
 	return out
+}
+
+// rowFields: can the abstract object be a database row - no list members, named members
+// with field names as keys and values that are not the empty string (an empty field is
+// not a member of the record)
+func rowFields(list []*inst, named []member) ([]string, bool) {
+	if len(list) != 0 || len(named) == 0 {
+		return nil, false
+	}
+	var cols []string
+	for _, m := range named {
+		if m.k.av.T != "str" || m.v.av.T == "str" && len(m.v.av.C) == 0 {
+			return nil, false
+		}
+		f := m.k.av.Bytes()
+		if f == "" || strings.HasSuffix(f, "_deps") || strings.Trim(f, "abcdefghijklmnopqrstuvwxyz_0123456789") != "" {
+			return nil, false
+		}
+		cols = append(cols, f)
+	}
+	return cols, true
+}
+
+// packExact: harness sanity - storing the scalar member values must give back the values
+// they are named after (judged from the representation's own fields, as in add)
+func packExact(named []member) (ok bool) {
+	defer func() {
+		if e := recover(); e != nil {
+			ok = false
+		}
+	}()
+	for _, m := range named {
+		if m.v.av.T == "obj" {
+			continue
+		}
+		if back, ok := aval.Of(Unpack(PackValue(m.v.v))); !ok || back.String() != m.v.av.String() {
+			return false
+		}
+	}
+	return true
+}
+
+// rowRecord builds a new record backed by stored data. variant: "" one stored record,
+// ".rev" columns in reverse order, ".join" two stored records with the first field in
+// both (as a join on it delivers), ".part" one field already read
+func rowRecord(cols []string, named []member, variant string, av *aval.V, fresh func(*inst, *[]leaf) Value) (Value, []leaf) {
+	n := len(cols)
+	raw := make([]string, n)
+	for i, m := range named {
+		var ignore []leaf // a packed member is not lazy any more
+		raw[i] = PackValue(fresh(m.v, &ignore))
+	}
+	idx := make([]int, n)
+	for i := range idx {
+		idx[i] = i
+		if variant == ".rev" {
+			idx[i] = n - 1 - i
+		}
+	}
+	parts := [][]int{idx}
+	if variant == ".join" {
+		k := (n + 1) / 2
+		parts = [][]int{idx[:k], append([]int{idx[0]}, idx[k:]...)}
+	}
+	var row Row
+	var fields [][]string
+	var columns []string
+	for _, part := range parts {
+		b := RecordBuilder{}
+		var fs []string
+		for _, i := range part {
+			b.AddRaw(raw[i])
+			fs = append(fs, cols[i])
+		}
+		row = append(row, DbRec{Record: b.Build()})
+		fields = append(fields, fs)
+	}
+	for _, i := range idx {
+		columns = append(columns, cols[i])
+	}
+	r := SuRecordFromRow(row, NewHeader(fields, columns), "", nil)
+	if variant == ".part" {
+		r.Get(nil, SuStr(cols[0]))
+	}
+	return r, []leaf{{r, av}}
 }
 
 // ------------------------------------------------------------------ universe
@@ -451,6 +604,37 @@ func universe(rnd *rand.Rand, thorough bool) {
 	objs(nil, M(s("k"), onea))
 	nest := objs(L(objs(L(objs(L(one), nil)[0]), nil)[0]), nil) // depth 4
 	_ = nest
+	// lazily materialised records (as queries / cursors / triggers deliver them) on their
+	// own and nested where a container's hash looks (first two list members, keys and values
+	// of up to 4 named members) and where it does not
+	objs(nil, M(s("num"), n("123"), s("str"), s("foobar")))
+	objs(nil, M(s("a"), n("1"), s("b"), s("x"), s("c"), one))
+	lz := func(ms []member) *inst {
+		av := aval.Obj(nil, nil)
+		for _, m := range ms {
+			av.N = append(av.N, [2]*aval.V{m.k.av, m.v.av})
+		}
+		in := g(av, "SuRecordFromRow")
+		if in.mk == nil {
+			vh.Fatal("no lazy record for %s", av)
+		}
+		return in
+	}
+	lzA := lz(M(s("a"), n("1")))
+	lzAB := lz(M(s("a"), n("1"), s("b"), n("2")))
+	lzNS := lz(M(s("num"), n("123"), s("str"), s("foobar")))
+	lz5 := lz(M(s("a"), n("1"), s("b"), n("2"), s("c"), n("0"), s("d"), n("1"), s("e"), n("2")))
+	seq12 := g(aval.Obj([]*aval.V{aval.Num("1"), aval.Num("2")}, nil), "SuSequence")
+	objs(L(lzNS, s("x")), nil)
+	objs(L(lzA), nil)
+	objs(L(n("1"), lzAB), nil)
+	objs(L(n("1"), n("2"), lzA), nil)
+	objs(L(lzA, lzAB), M(s("k"), lzA))
+	objs(nil, M(s("k"), lzAB))
+	objs(nil, M(lzA, n("1")))
+	objs(nil, M(s("p"), lz5, s("q"), lzA))
+	objs(L(seq12, s("x")), nil)
+	objs(L(objs(L(lzAB, n("2")), nil)[0]), nil) // not looked at by the outer hash
 	if thorough {
 		// random objects over random members
 		all := append([]*inst{}, insts...)
@@ -540,6 +724,12 @@ func b2i(b bool) int {
 	return 0
 }
 
+// lazyCore: a record backed by its row, or a container holding a lazy value (always part
+// of the quick universe; the other lazy variants are sampled)
+func lazyCore(in *inst) bool {
+	return in.mk != nil && (in.rep == "SuRecordFromRow" || in.rep == "SuObject" || in.rep == "SuRecord")
+}
+
 func main() {
 	out := os.Args[1]
 	rowOnly := 0
@@ -564,7 +754,7 @@ func main() {
 		var keep []*inst
 		for _, in := range insts {
 			k := in.av.String()
-			if !first[k] || always(in) && rnd.Intn(100) < 45 || rnd.Intn(100) < 8 {
+			if !first[k] || lazyCore(in) || in.mk != nil && rnd.Intn(100) < 25 || always(in) && rnd.Intn(100) < 45 || rnd.Intn(100) < 8 {
 				keep = append(keep, in)
 			}
 			first[k] = true
@@ -576,7 +766,7 @@ func main() {
 		first := map[string]bool{}
 		var keep, rest []*inst
 		for _, in := range insts {
-			if k := in.av.String(); !first[k] {
+			if k := in.av.String(); !first[k] || in.mk != nil {
 				first[k] = true
 				keep = append(keep, in)
 			} else {
@@ -658,5 +848,125 @@ func main() {
 			}
 		}
 	}
-	vh.Summary("instances", n, "pairs", npairs, "exceptions", nexc, "maps", nmaps, "misnamed_dropped", misnamed, "events", tr.N)
+	nlazy, neps, nlz := 0, 0, 0
+	if rowOnly == 0 {
+		nlazy, neps, nlz = episodes(tr, rnd, cls)
+	}
+	vh.Summary("instances", n, "pairs", npairs, "exceptions", nexc, "maps", nmaps, "misnamed_dropped", misnamed,
+		"lazy_instances", nlazy, "lazy_episodes", neps, "lazy_steps", nlz, "events", tr.N)
+}
+
+// ------------------------------------------------------------------ lazy episodes
+
+// episodes: for every instance that is (or contains) a lazily materialised value, brand new
+// copies are taken through sequences of READ-ONLY operations - reading a field of the lazy
+// value, displaying it, hashing, comparing, storing a member under it in a container and
+// looking that member up under the same key and under equal / other keys - in different
+// orders, so that hashes and lookups are observed in every materialisation state.
+//   LzNew of, ep, ra (abstract value of the first lazy leaf)
+//   Lz    of, op, b (other instance or 0), k (member key of the leaf), r (result), h (hash)
+func episodes(tr *vh.Trace, rnd *rand.Rand, cls map[string]int) (nlazy, neps, nsteps int) {
+	none := aval.Bool(false)
+	byCls := map[int][]*inst{}
+	for _, in := range insts {
+		c := cls[in.av.String()]
+		byCls[c] = append(byCls[c], in)
+	}
+	scripts := [][]string{
+		{"hash", "eq", "hash", "look0", "cmp", "hash"},
+		{"put", "look", "get", "look0", "look", "str", "look0", "look", "hash"},
+		{"get", "hash", "put", "has", "str", "look0", "look", "cmp", "hash"},
+		{"has", "put", "eq", "look0", "look", "hash"},
+	}
+	nrand := 2
+	if vh.Thorough() {
+		nrand = 12
+	}
+	allops := []string{"hash", "eq", "cmp", "put", "look", "look0", "get", "has", "str", "look", "look0", "get"}
+	for _, in := range insts {
+		if in.mk == nil {
+			continue
+		}
+		nlazy++
+		scs := append([][]string{}, scripts...)
+		for i := 0; i < nrand; i++ {
+			sc := make([]string, 4+rnd.Intn(8))
+			for j := range sc {
+				sc[j] = allops[rnd.Intn(len(allops))]
+			}
+			scs = append(scs, sc)
+		}
+		eqs := byCls[cls[in.av.String()]]
+		for ep, sc := range scs {
+			x, leaves := in.mk()
+			var lf leaf
+			ra := aval.Obj(nil, nil)
+			if len(leaves) > 0 {
+				lf = leaves[rnd.Intn(len(leaves))]
+				ra = lf.av
+			}
+			var c Container = &SuObject{}
+			if ep%2 == 1 {
+				c = NewSuRecord()
+			}
+			tr.Emit(vh.E("LzNew", "of", in.id, "ep", ep, "ra", ra))
+			neps++
+			for _, op := range sc {
+				b := eqs[rnd.Intn(len(eqs))] // an equal value in some representation ...
+				if rnd.Intn(4) == 0 {
+					b = insts[rnd.Intn(len(insts))] // ... or any value
+				}
+				bid, k, r, h := 0, none, 0, []int{}
+				func() {
+					defer func() {
+						if e := recover(); e != nil {
+							r = 7 // an exception is not an answer
+							fmt.Fprintf(os.Stderr, "exception in lazy episode %s %s op %s: %v\n", in.rep, in.av, op, e)
+						}
+					}()
+					switch op {
+					case "hash":
+						h = hashChunks(x)
+					case "eq":
+						bid, r = b.id, b2i(x.Equal(b.v) && b.v.Equal(x))
+					case "cmp":
+						bid, r = b.id, sign(x.Compare(b.v))
+					case "put":
+						c.Put(nil, x, True)
+					case "look":
+						bid, r = b.id, b2i(c.GetIfPresent(nil, b.v) != nil)
+					case "look0":
+						r = b2i(c.GetIfPresent(nil, x) != nil && c.HasKey(x))
+					case "get", "has":
+						rec, ok := lf.v.(*SuRecord)
+						if !ok || len(lf.av.N) == 0 {
+							op = "str"
+							if lf.v != nil {
+								_ = lf.v.String()
+							}
+							return
+						}
+						k = lf.av.N[rnd.Intn(len(lf.av.N))][0]
+						if op == "has" && rnd.Intn(3) == 0 {
+							k = aval.Str("zz")
+						}
+						if op == "get" {
+							r = b2i(rec.Get(nil, SuStr(k.Bytes())) != nil)
+						} else {
+							r = b2i(rec.HasKey(SuStr(k.Bytes())))
+						}
+					case "str":
+						if lf.v != nil {
+							_ = lf.v.String()
+						} else {
+							_ = x.String()
+						}
+					}
+				}()
+				tr.Emit(vh.E("Lz", "of", in.id, "op", op, "b", bid, "k", k, "r", r, "h", h))
+				nsteps++
+			}
+		}
+	}
+	return
 }
